@@ -211,7 +211,7 @@ def _p11i(ctx):
     n = 0
     for name in sorted(F.fns):
         f = F.fns[name]
-        if f['kind'] != 'AssocFn' or f.get('from_expansion') or name in F.fresh:
+        if f['kind'] != 'AssocFn' or f.get('from_expansion') or (name in F.fresh and ctx.revcg().get(name)):
             continue
         adt = (f.get('impl_self') or {}).get('adt') or ''
         if not re.search(r'multiqueue::FutInner(Uni)?Recv$', adt):
